@@ -284,8 +284,8 @@ def judge_step(s, entries, case, feats, t: Tally, badlen=False):
 # TCP segmentation family
 
 
-def streams():
-    """(label, direction, setup, list of frames, bad_after_good, has_bad)"""
+def streams(thorough=False):
+    """(label, direction, list of frames, bad_after_good, has_bad, cut bound or None for the tier's bound)"""
     q1, q2, q3 = frame("tcp", query_bytes(1, "a")), frame("tcp", query_bytes(2, "b")), frame("tcp", query_bytes(1, "b"))
     r1, r2 = frame("tcp", reply_bytes(1, "a")), frame("tcp", reply_bytes(2, "b"))
     zero, garbage = BADLEN["zero"](), BADLEN["short-garbage"]()
@@ -308,6 +308,16 @@ def streams():
         ("good+zero-length", "server", [r1, zero], True, True),
         ("good+garbage", "server", [r2, garbage], True, True),
     ]
+    out = [x + (None,) for x in out]
+    # every mix of well-framed messages, in both directions: all sequences (quick: <= 2, thorough: <= 3 messages) over
+    # upstream replies {matching id 1, matching id 2, unsolicited id 3, id 1 with another question} and over client
+    # queries {id 1, id 2, id 1 again with another question}
+    replies = {"match1": r1, "match2": r2, "unsolicited": frame("tcp", reply_bytes(3, "a")), "other-question": frame("tcp", reply_bytes(1, "b"))}
+    queries = {"q1": q1, "q2": q2, "q1-reused": q3}
+    for direction, alphabet in (("server", replies), ("client", queries)):
+        for n in ((2, 3) if thorough else (2,)):
+            for seq in itertools.product(sorted(alphabet), repeat=n):
+                out.append(("mix:" + "+".join(seq), direction, [alphabet[k] for k in seq], False, False, 2 if thorough and n == 2 else 1))
     return out
 
 
@@ -450,12 +460,14 @@ def run(ctx):
     cuts = ctx.pick(2, 3)
     ctx.bounds = {"bfs_depth": depth, "bfs_configs": ["udp+upstream", "tcp+upstream", "udp no upstream", "tcp no upstream"],
                   "ids": [1, 2, 3], "names": ["a", "b"], "addon_policies": ["pass", "set response", "set error"], "connect": ["ok", "fail"],
-                  "tcp_streams": len(streams()), "max_cuts": cuts, "question_sections": {"a": "[a]", "b": "[b, a]"},
+                  "tcp_streams": len(streams(ctx.thorough)), "max_cuts": cuts,
+                  "tcp_message_mixes": "all sequences of 2 well-framed messages per direction, <= %d cuts and byte by byte%s" % (
+                      (2, "; of 3 messages with <= 1 cut") if ctx.thorough else (1, "")), "question_sections": {"a": "[a]", "b": "[b, a]"},
                   "servfail_matrix": "2 transports x 3 causes x 16 opcodes x RD x other-bits{0,1} x 0..3 questions"}
     cases = list(servfail_cases())
-    for label, direction, frames, bag, has_bad in streams():
+    for label, direction, frames, bag, has_bad, bound in streams(ctx.thorough):
         n = sum(len(f) for f in frames)
-        for cs in cut_sets(n, cuts):
+        for cs in cut_sets(n, cuts if bound is None else min(cuts, bound)):
             cases.append({"stream": label, "dir": direction, "frames": frames, "cuts": cs, "bad_after_good": bag, "has_bad": has_bad})
     ctx.log("%d configurations to explore to depth %d, %d segmentation/SERVFAIL executions" % (len(CONFIGS), depth, len(cases)))
     nproc = ctx.pick(min(4, par.NPROC), par.NPROC)
